@@ -27,6 +27,8 @@
 #include "common/session.h"
 #include "common/wirepeer.h"
 #include "manager.h"
+#include "download/download_main.h"
+#include "torrent/download_info.h"
 #include "protocol/handshake.h"
 #include "protocol/handshake_manager.h"
 #include "protocol/peer_connection_base.h"
@@ -92,7 +94,7 @@ static Script parse_script(const std::string& s) {
 
 static torrent::Handshake* find_hs(uint16_t port) {
   auto* hm = torrent::manager->handshake_manager();
-  auto& v = *static_cast<torrent::HandshakeManager::base_type*>(hm);
+  auto& v = *(torrent::HandshakeManager::base_type*)(hm);   // private base: C-style cast
   for (auto& h : v) {
     const sockaddr* sa = h->socket_address();
     if (sa != nullptr && sa->sa_family == AF_INET && ntohs(((const sockaddr_in*)sa)->sin_port) == port) return h.get();
@@ -307,8 +309,10 @@ static std::vector<std::string> segments(const std::string& bytes, const std::st
 // Runs one script on one connection. Returns the per-segment trace; outcome in `result` ("" = still open).
 static std::string run_script(Session& S, Conn& c, const Script& sc, uint16_t hs_port, Torrent* T, std::string& result) {
   std::string trace;
+  auto count_err = []() { size_t n = 0, p = 0; while ((p = g_log.find("received error: message:", p)) != std::string::npos) { n++; p++; } return n; };
+  size_t err0 = count_err();
   auto observe = [&]() -> bool {   // true: handshake over
-    torrent::Handshake* h = find_hs(hs_port);
+    torrent::Handshake* h = count_err() != err0 ? nullptr : find_hs(hs_port);   // a failure may already have spawned the retry on the same address
     if (h != nullptr) {
       trace += (trace.empty() ? "" : ",") + std::to_string((int)h->state()) + "." + std::to_string(h->m_readBuffer.size_position()) + "." +
                std::to_string(h->m_readBuffer.size_end());
@@ -364,6 +368,7 @@ static std::string lib_check(Session& S, Torrent* T, uint16_t port, const std::s
   const torrent::Bitfield* bf = pcb->peer_chunks()->bitfield();
   bool have1 = bf->size_bits() > 1 && bf->get(1);
   bool queued = pcb->m_up_choke.queued() || pcb->m_up_choke.unchoked();
+  if (getenv("C06_DEBUG")) fprintf(stderr, "have1=%d queued=%d %s\n", have1, queued, S.dump_connection(pcb).c_str());
   return (have1 && queued) ? "lib=ok" : "lib=bad";
 }
 
@@ -461,5 +466,5 @@ int main() {
     }
   }
   std::cout.flush();
-  _exit(0);
+  return 0;
 }
